@@ -1,7 +1,9 @@
 import PartituraModel.Wire
 import PartituraModel.Model.IterProto
+import PartituraModel.Model.RefHeap
 
 open Wire Model.IterProto
+open Model.RefHeap (Attr Heap variant)
 
 def parseOp : P Op := do
   let t ← tok
@@ -30,6 +32,22 @@ def fmtOut : Out Nat → String
   | .indexError => "IndexError"
   | .badHandle => "bad"
 
+def parseAttr : P Attr := do
+  let t ← tok
+  match t with
+  | "n" => pure Attr.none
+  | "s" => do let o ← nat; pure (Attr.single o)
+  | "l" => do let c ← nat; pure (Attr.list c)
+  | _ => P.fail
+
+/-- an attribute of the heap after the copying step: `-`, `s<object>`, or `lF[…]` / `lS[…]` — a list with its
+    contents, F(resh) when its cell did not exist before the step, S(hared) when it is a cell of the old heap -/
+def fmtAttr (oldCells : Nat) (h : Heap) : Attr → String
+  | Attr.none => "-"
+  | Attr.single o => "s" ++ toString o
+  | Attr.list a => (if a < oldCells then "lS" else "lF") ++
+      fmtList (fmtOpt (fun (n : Nat) => toString n)) (h.cells.getD a [])
+
 /-- `run n ops…`: a container with parts 0..n-1 (parts are identified by their index) -/
 def handle (ts : List String) : String :=
   match ts with
@@ -44,6 +62,15 @@ def handle (ts : List String) : String :=
   | "srun" :: rest =>
     match Wire.run (do let n ← nat; let ops ← list parseOp; pure (n, ops)) rest with
     | some (n, ops) => fmtList fmtOut (srun (List.range n) {} ops).2
+    | none => "bad-request"
+  | "refs" :: rest =>
+    -- refs <objects: list of attribute lists> <cells: list of lists of optional ids> <ids of the objects to copy>
+    match Wire.run (do let objs ← list (list parseAttr); let cells ← list (list (opt nat)); let os ← list nat
+                       pure (objs, cells, os)) rest with
+    | some (objs, cells, os) =>
+      let h : Heap := { objs := objs, cells := cells }
+      let v := variant h os
+      fmtList (fun as => fmtList (fmtAttr cells.length v) as) v.objs
     | none => "bad-request"
   | _ => "bad-request"
 
